@@ -10,6 +10,7 @@ import (
 	"verif/checks/c10"
 	"verif/checks/c12"
 	"verif/checks/c13"
+	"verif/checks/c16"
 	"verif/checks/c18"
 	"verif/checks/c20"
 	"verif/engine/ev"
@@ -25,6 +26,7 @@ func main() {
 		"C10": c10.Check,
 		"C12": c12.Check,
 		"C13": c13.Check,
+		"C16": c16.Check,
 		"C18": c18.Check,
 		"C20": c20.Check,
 	})
